@@ -24,6 +24,12 @@ func H_C20_forward() {
 	for i := range xs {
 		xs[i], _ = operandInState(vrt.Nm("x", i), opShape(), vrt.Concretize(vrt.Int(vrt.Nm("state", i), 0, 1)))
 	}
+	// a second, never-used set of the same operands for the real goroutines of the native replay: a
+	// lazily filled cache on an operand is only written by its first use
+	zs := make([]T, n)
+	for i := range zs {
+		zs[i], _ = operandInState(vrt.Nm("x", i), opShape(), vrt.Concretize(vrt.Int(vrt.Nm("state", i), 0, 1)))
+	}
 	// "goroutine 1"
 	if n == 1 {
 		vrt.FootprintBegin(xs[0])
@@ -33,7 +39,7 @@ func H_C20_forward() {
 		vrt.FootprintBegin(xs[0], xs[1], xs[2])
 	}
 	y1, err1 := c08Apply(op, xs)
-	w1 := vrt.FootprintEnd("")
+	w1 := vrt.FootprintEnd("mode=race")
 	// "goroutine 2": the same computation on the same shared operands
 	if n == 1 {
 		vrt.FootprintBegin(xs[0])
@@ -43,7 +49,7 @@ func H_C20_forward() {
 		vrt.FootprintBegin(xs[0], xs[1], xs[2])
 	}
 	y2, err2 := c08Apply(op, xs)
-	w2 := vrt.FootprintEnd("")
+	w2 := vrt.FootprintEnd("mode=race")
 	if err1 != nil || err2 != nil || y1 == nil || y2 == nil {
 		vrt.Assert("operation accepted", false)
 		return
@@ -51,14 +57,14 @@ func H_C20_forward() {
 	vrt.Assert(op+": forward work writes to no shared object", w1 == 0 && w2 == 0)
 	vrt.FootprintBegin(xs[0])
 	scalarAccessors(xs[0])
-	vrt.Assert("value-returning methods (reductions, NElems, Shape, At, Equals, ...) write to no shared object", vrt.FootprintEnd("") == 0)
+	vrt.Assert("value-returning methods (reductions, NElems, Shape, At, Equals, ...) write to no shared object", vrt.FootprintEnd("mode=race") == 0)
 	vrt.Assert(op+": the two results are distinct objects", y1 != y2)
 	checkTensor(op+": both computations obtain the sequential result", y2, vrt.Dims(y1), vrt.Flat(y1))
 	vrt.Assert(op+": tracking of the results agrees", vrt.Tracked(y1) == vrt.Tracked(y2) && vrt.Dirty(y1) == vrt.Dirty(y2))
 	// native replay (built with -race): the same work in real goroutines
 	vrt.Concurrently(3, func(int) {
-		c08Apply(op, xs)
-		x := xs[0]
+		c08Apply(op, zs)
+		x := zs[0]
 		_, _, _, _ = x.NElems(), x.Shape(), x.Avg(), x.Std()
 		_, _ = x.Equals(x)
 	})
@@ -94,16 +100,24 @@ func H_C20_layers() {
 		if e3 != nil {
 			vrt.Assume(false)
 		}
-		return l, vrt.FootprintEnd("")
+		return l, vrt.FootprintEnd("mode=race")
 	}
 	l1, w1 := run()
 	l2, w2 := run()
 	vrt.Assert("layer / activation / loss evaluation writes to no shared object", w1 == 0 && w2 == 0)
 	lossName := vrt.SParam("loss")
+	// fresh layer, activation and tensors for the real goroutines (see H_C20_forward)
+	fc2, ok2 := newFC(0, F, O, we, be)
+	sm2, err2 := activations.NewSoftmax(&activations.SoftmaxConfig{Dim: 1})
+	x2, _ := mk("x", []int{B, F}, false)
+	t2, _ := mk("t", []int{B, O}, false)
+	if !ok2 || err2 != nil {
+		vrt.Assume(false)
+	}
 	vrt.Concurrently(3, func(int) {
-		if z, e := fc.Forward(x); e == nil {
-			if a, e := sm.Forward(z); e == nil {
-				computeLoss(lossName, a, t)
+		if z, e := fc2.Forward(x2); e == nil {
+			if a, e := sm2.Forward(z); e == nil {
+				computeLoss(lossName, a, t2)
 			}
 		}
 	})
@@ -141,7 +155,7 @@ func H_C20_backprop() {
 			vrt.Assert("back-propagation succeeds", false)
 		}
 		vrt.Assert("private parameter received its gradient", w.Gradient() != nil)
-		return vrt.FootprintEnd("")
+		return vrt.FootprintEnd("mode=race")
 	}
 	w1 := run("p")
 	w2 := run("q")
@@ -150,18 +164,21 @@ func H_C20_backprop() {
 	for i := range priv {
 		priv[i], _ = mk(vrt.Nm("r", i), []int{2, 2}, true)
 	}
+	fresh1, _ := mk("s", []int{2, 2}, false)
+	fresh2, _ := mk("u", []int{2, 2}, false)
 	vrt.Concurrently(3, func(i int) {
-		if y, e := priv[i].Mul(shared1); e == nil {
-			if y, e = y.MatMul(shared2); e == nil {
-				if y, e = y.Tanh().ElMax(shared1); e == nil {
-					if y, e = tensor.Concat([]T{y, shared2}, 0); e == nil {
+		if y, e := priv[i].Mul(fresh1); e == nil {
+			if y, e = y.MatMul(fresh2); e == nil {
+				if y, e = y.Tanh().ElMax(fresh1); e == nil {
+					if y, e = tensor.Concat([]T{y, fresh2}, 0); e == nil {
 						tensor.BackPropagate(y)
 					}
 				}
 			}
 		}
 	})
-	vrt.Assert("shared untracked tensors receive nothing", shared1.Gradient() == nil && shared2.Gradient() == nil && !vrt.Dirty(shared1) && !vrt.Dirty(shared2))
+	vrt.Assert("shared untracked tensors receive nothing", shared1.Gradient() == nil && shared2.Gradient() == nil && !vrt.Dirty(shared1) && !vrt.Dirty(shared2) &&
+		fresh1.Gradient() == nil && fresh2.Gradient() == nil && !vrt.Dirty(fresh1) && !vrt.Dirty(fresh2))
 	vrt.Reach("done")
 }
 
@@ -171,7 +188,7 @@ func H_C20_rand() {
 	vrt.FootprintBegin(shared)
 	a, e1 := tensor.RandU([]int{2, 2}, vrt.Float("lo"), vrt.Float("lo")+1, nil)
 	b, e2 := tensor.RandN([]int{2, 2}, vrt.Float("mu"), 1, nil)
-	w := vrt.FootprintEnd("")
+	w := vrt.FootprintEnd("mode=race")
 	vrt.Assert("random constructors accepted", e1 == nil && e2 == nil && a != nil && b != nil)
 	vrt.Assert("random constructors write to no pre-existing qeep object", w == 0)
 	vrt.Concurrently(3, func(int) {
